@@ -47,7 +47,8 @@ Record lmethod := { lm_name : string; lm_vis : string; lm_async : bool; lm_gener
 Record stop_branch := { stp_variant : string; stp_tx : string; stp_scrut : string; stp_send_on : string;
                         stp_payload : list src; stp_closed : onclosed; stp_returns : bool }.
 Record play_shape := { pl_pat : string; pl_msg : string; pl_rx : string; pl_recv : string; pl_await : bool;
-                       pl_stop : option stop_branch; pl_disp_on : string; pl_disp_arg : string; pl_disp_mut : bool; pl_disp_await : bool }.
+                       pl_stop : option stop_branch; pl_disp_on : string; pl_disp_arg : string; pl_disp_mut : bool; pl_disp_await : bool;
+                       pl_drain : option (string * lib)   (* drain guard: receiver whose clone is closed and emptied when play ends, and the runtime of its type *) }.
 Record play := { pl_params : list (string * string); pl_async : bool; pl_shape : play_shape + string }.
 Record variant := { v_name : string; v_tuple : bool; v_fields : list (string * string) }.
 Record model := { m_lib : lib; m_actor_ty : string; m_script : string; m_live : string; m_variants : list variant;
